@@ -1,0 +1,9 @@
+//go:build verif
+
+package ds
+
+// VerifPartitionsC05 returns the partitions in the order given to the constructor (verification harness only).
+func (p *PartitionedPriorityQueue[T]) VerifPartitionsC05() []QueuePartition[T] { return p.partitions }
+
+// VerifPartitionIndexC05 returns the position of the partition an item would be pushed to (verification harness only).
+func (p *PartitionedPriorityQueue[T]) VerifPartitionIndexC05(item T) int { return p.getPartitionIndex(item) }
